@@ -98,7 +98,7 @@ def check_case(names, endian, align, ptr, res: JobResult, tier="quick", cuts=Tru
     if sc.layout_sig(TI) != sc.layout_sig(TC):
         viol("layout:differs", f"{text!r}: {sc.layout_sig(TI)} vs {sc.layout_sig(TC)}")
     try:
-        ins = sc.inputs(st, cfg, dev=1 if tier == "quick" else 1, limit=14 if tier == "quick" else 60)
+        ins = sc.inputs(st, cfg, dev=1 if tier == "quick" else 1, limit=14 if tier == "quick" else 32)
     except RefReject:
         # the model says the definition should not exist; C06 reports that - differential still applies on raw inputs
         ins = [sc.Input(f"raw:{i}", d, "undef") for i, d in enumerate(sc.values.raw_patterns())]
